@@ -1,6 +1,6 @@
 (* Properties_C06.v — C06: only the library's own, still-unreaped child is signalled or reaped.
    Theorems only. *)
-From Verif Require Import Lib WorldSpec LibSpec.
+From Verif Require Import Lib WorldSpec WorldSpec2 LibSpec WaitSpec.
 From Coq Require Import Lia.
 Local Open Scope Z_scope.
 
@@ -48,6 +48,23 @@ Proof.
   intros t. apply reproc_wait_cached, H.
 Qed.
 Print Assumptions C06_noop_after_reap.
+
+(* a successful reap happens only while the handle's child is still unreaped: at the moment the
+   waitpid event is logged the child (the positive pid stored in the handle) is a zombie, and it
+   is that record which becomes reaped -- for every well-formed world *)
+Theorem C06_reap_only_unreaped : forall p t w r p' w',
+  wf w -> h_status p = STATUS_IN_PROGRESS -> 0 < h_handle p ->
+  reproc_wait p t w = Ret (r, p') w' -> 0 <= r ->
+  exists st wz ev post,
+    pr_state (get_proc (h_handle p) wz) = Zombie st
+    /\ w_trace w' = post ++ ev :: w_trace wz /\ e_call ev = CWaitpid /\ e_args ev = [h_handle p]
+    /\ get_proc (h_handle p) w' = pr_with_state (Reaped st) (get_proc (h_handle p) wz).
+Proof.
+  intros p t w r p' w' W Hs Hp E Hr.
+  destruct (reproc_wait_exact p t w r p' w' W Hs Hp E Hr) as (st & wz & Hz & Hrec & _ & (post & ev & Ht & Hc & Ha & _) & _).
+  exists st, wz, ev, post. auto.
+Qed.
+Print Assumptions C06_reap_only_unreaped.
 
 (* operations on a never-started handle are rejected without any system call *)
 Theorem C06_not_started_rejected : forall p w, h_status p = STATUS_NOT_STARTED ->
